@@ -5,12 +5,17 @@ go 1.23.7
 toolchain go1.24.1
 
 require (
+	github.com/bmatcuk/doublestar/v4 v4.8.1
 	github.com/go-jose/go-jose/v4 v4.0.5
+	github.com/google/uuid v1.6.0
 	github.com/zitadel/oidc/v3 v3.0.0
+	github.com/zitadel/schema v1.3.1
+	golang.org/x/net v0.36.0
+	golang.org/x/oauth2 v0.29.0
+	golang.org/x/text v0.24.0
 )
 
 require (
-	github.com/bmatcuk/doublestar/v4 v4.8.1 // indirect
 	github.com/go-chi/chi/v5 v5.2.1 // indirect
 	github.com/go-logr/logr v1.4.2 // indirect
 	github.com/go-logr/stdr v1.2.2 // indirect
@@ -20,14 +25,11 @@ require (
 	github.com/rs/cors v1.11.1 // indirect
 	github.com/sirupsen/logrus v1.9.3 // indirect
 	github.com/zitadel/logging v0.6.2 // indirect
-	github.com/zitadel/schema v1.3.1 // indirect
 	go.opentelemetry.io/otel v1.29.0 // indirect
 	go.opentelemetry.io/otel/metric v1.29.0 // indirect
 	go.opentelemetry.io/otel/trace v1.29.0 // indirect
 	golang.org/x/crypto v0.35.0 // indirect
-	golang.org/x/oauth2 v0.29.0 // indirect
 	golang.org/x/sys v0.30.0 // indirect
-	golang.org/x/text v0.24.0 // indirect
 )
 
 replace github.com/zitadel/oidc/v3 => /repo
